@@ -133,25 +133,29 @@ impl<R: Read + Seek> ReadBox<&mut R> for TrunBox {
             sample_cts.reserve(sample_count as usize);
         }
 
-        for _ in 0..sample_count {
-            if TrunBox::FLAG_SAMPLE_DURATION & flags > 0 {
-                let duration = reader.read_u32::<BigEndian>()?;
-                sample_durations.push(duration);
-            }
+        // Without per-sample fields there is nothing to read: sample_count is then
+        // not backed by any data in the box and must not drive a loop.
+        if sample_size > 0 {
+            for _ in 0..sample_count {
+                if TrunBox::FLAG_SAMPLE_DURATION & flags > 0 {
+                    let duration = reader.read_u32::<BigEndian>()?;
+                    sample_durations.push(duration);
+                }
 
-            if TrunBox::FLAG_SAMPLE_SIZE & flags > 0 {
-                let sample_size = reader.read_u32::<BigEndian>()?;
-                sample_sizes.push(sample_size);
-            }
+                if TrunBox::FLAG_SAMPLE_SIZE & flags > 0 {
+                    let sample_size = reader.read_u32::<BigEndian>()?;
+                    sample_sizes.push(sample_size);
+                }
 
-            if TrunBox::FLAG_SAMPLE_FLAGS & flags > 0 {
-                let sample_flag = reader.read_u32::<BigEndian>()?;
-                sample_flags.push(sample_flag);
-            }
+                if TrunBox::FLAG_SAMPLE_FLAGS & flags > 0 {
+                    let sample_flag = reader.read_u32::<BigEndian>()?;
+                    sample_flags.push(sample_flag);
+                }
 
-            if TrunBox::FLAG_SAMPLE_CTS & flags > 0 {
-                let cts = reader.read_u32::<BigEndian>()?;
-                sample_cts.push(cts);
+                if TrunBox::FLAG_SAMPLE_CTS & flags > 0 {
+                    let cts = reader.read_u32::<BigEndian>()?;
+                    sample_cts.push(cts);
+                }
             }
         }
 
